@@ -656,6 +656,16 @@ def _transmissivity(ctx, chk):
             desc = "raises when %s(%s 0 %s)%s; %s the return" % ((anyall + " ") if anyall else "", p.key(), op,
                                                                   " [negated]" if g.negated else "", "dominates" if dom else "does NOT dominate")
         except NotAlgebraic as exc:
+            # a refusal derived from the computed value (isnan / isfinite of the power) instead of from the level
+            nanlike = [c for c in ast.walk(flow.expand(g.expr)) if isinstance(c, ast.Call)
+                       and (full_call_name(mod, c) or dotted_name(c.func) or "").split(".")[-1] in ("isnan", "isfinite", "isinf", "isreal", "iscomplex")]
+            if nanlike:
+                chk.ob("C16.O4", False, where_of(f, g.stmt),
+                       "the refusal is decided from the computed value (%s), not by comparing the level with zeta_max_cm" % ast.unparse(nanlike[0])[:60],
+                       "raises when any level (in cm) is strictly above zeta_max_cm, before the value is computed",
+                       key="PeatclsmTransmissivity|refusal",
+                       why="a negative base raised to a whole-number exponent is an ordinary finite number: with alpha = 3 (the published value) every level above zeta_max is accepted silently")
+                return
             chk.indeterminate("C16.O4", where_of(f, g.stmt), "cannot normalise the refusal test: %s" % exc)
             return
     chk.ob("C16.O4", ok, where_of(f, gs[0].stmt if gs else f.node), desc,
